@@ -10,6 +10,7 @@ TRACE = os.path.join(SPECDIR, "Trace_Wal.tla")
 MODES = ["Sync", "Batch", "Flush"]
 FIXED = ["NoCommitMarkerBeforeClose", "RotateWithoutFsync", "ContinueAfterBadRecord", "AppendBehindGarbage", "KeepUncommittedTail"]
 KNOWN_SW = ["UnloggedOps", "SkipPreCheckpointFiles"]
+HYPOTHETICAL = ["RepairNewestOnly"]   # never in the tree: vacuity guard of the crash-inside-rotate window
 
 
 def mc_cfg(path, mode, asis, *, ops=3, maxlog=4, crashes=2, ckpt=1, closes=1, flips=1, invs=("Consistent", "RecoveryOk", "DurableBounded")):
@@ -70,7 +71,7 @@ def run(prop, tier, seed):
             if zero:
                 raise V.ToolError(f"vacuity: Wal actions never taken: {zero}")
     # each deviation switch must break the invariants (non-vacuity; these are the repaired / known defects)
-    for sw in FIXED + KNOWN_SW:
+    for sw in FIXED + KNOWN_SW + HYPOTHETICAL:
         cfg = mc_cfg(os.path.join(wd, f"sw-{sw}.cfg"), "Flush", [sw])
         r = V.tlc(MOD, cfg, name=f"{prop}sw{sw}", workers=4, timeout=300)
         if r.violation not in ("Consistent", "RecoveryOk"):
@@ -108,6 +109,19 @@ def run(prop, tier, seed):
     rc, out, _ = V.gv(args, timeout=6000)
     info = json.loads(out.strip().splitlines()[-1])
     ev = V.read_ndjson(tp)
+    # rotation profile: the same harness with the log rotated every ~400 bytes (hook 4a71aa7): several files, crash
+    # images inside rotate() (old file cut back to what it had fsynced before, next to the new empty file)
+    ntr2, ln2 = (24, 40) if tier == "quick" else (200, 60)
+    tp2 = os.path.join(wd, "trace-rot.ndjson")
+    rc, out2, _ = V.gv(["wal", "--seed", seed + 900 + (0 if prop == "C05" else 500), "--traces", ntr2, "--len", ln2, "--out", tp2,
+                        "--dir", os.path.join(wd, "dbrot"), "--maxlog", 400, "--flips", 2], timeout=6000)
+    ev2 = V.read_ndjson(tp2)
+    rot_files = max(len(e.get("st", [])) for e in ev2)
+    rot_multi = sum(1 for e in ev2 if e["a"] in ("probe", "crash") and len(e["img"]) > 1)
+    if rot_files < 2 or rot_multi == 0:
+        raise V.ToolError("rotation profile produced no multi-file crash image")
+    rep.add(rotation={"histories": ntr2, "events": len(ev2), "max_log_files": rot_files, "multi_file_crash_images": rot_multi})
+    ev = ev + ev2
     bym = split_modes(ev)
     tot_tr = tot_ev = 0
     samples = []
@@ -164,7 +178,8 @@ def run(prop, tier, seed):
         "fsync points are taken from the WAL hook, file contents from the real files",
         "prefix states are the live database's own dumps after each call (the engine is its own oracle for what a prefix produces)",
         "durability modes Sync, Batch(3 records, no timer), NoSync and Adaptive (no flusher thread is started by GrafeoDB); log rotation "
-        "(64 MB in the engine) is explored in the model only",
+        "(64 MB in the engine) is exercised on the real code with the limit lowered to 400 bytes through the cfg(grafeo_verif) hook, "
+        "in histories without close / checkpoint (after those, recovery skips the earlier files: SkipPreCheckpointFiles)",
         "only mutations through the GrafeoDB API are in the random histories; never-logged mutations are separate witnesses"]
     return rep.finish()
 
